@@ -961,6 +961,274 @@ def evaluate_histories(ctx, res, hs, scope):
     res['evaluations'] += len(hs)
 
 
+# ------------------------------------------------------------------------------ connection histories
+# "auto-detection settles on a protocol": a connection created with JSONRPCAutoDetect that has
+# seen its first (parseable) message must from then on behave, for EVERY later operation, exactly
+# as a connection created with the protocol detected on that first message.  A history of >= 3
+# received messages / sent requests is run through one auto-detecting connection and through a
+# reference connection fixed to `detect_protocol(first message)`; every observable is compared:
+# items returned (kind, method, args), the bytes each request's `send_result` gives back (reply
+# format and id), exceptions (type, code, reply bytes), the bytes of requests sent, and the
+# state of the futures of the requests sent.
+def _conn_messages(mod):
+    R, N, B = mod.Request, mod.Notification, mod.Batch
+    v1, v2 = mod.JSONRPCv1, mod.JSONRPCv2
+    E_ = mod.RPCError
+    # responses that are not answers to anything carry string ids (no connection draws those);
+    # real answers are the `answer` steps, built from the ids read off each connection's own wire
+    return {
+        'v1req': lambda: v1.request_message(R('a', [1]), 11),
+        'v1req2': lambda: v1.request_message(R('b', ['x', [2]]), 'k'),
+        'v1notif': lambda: v1.notification_message(N('n', [])),
+        'v1res': lambda: v1.response_message([1, {'a': 2}], 'r0'),
+        'v1err': lambda: v1.response_message(E_(5, 'oops'), 'r1'),
+        'v2req': lambda: v2.request_message(R('m', [2]), 21),
+        'v2named': lambda: v2.request_message(R('m', {'x': 1}), 22),
+        'v2notif': lambda: v2.notification_message(N('m', [2])),
+        'v2res': lambda: v2.response_message('r', 'r0'),
+        'v2err': lambda: v2.response_message(E_(-32601, 'nope'), 'r1'),
+        'v2batch': lambda: v2.batch_message(B([R('p', []), N('q', {}), R('r', [3])]), [31, 32]),
+        'v2resbatch': lambda: b'[' + v2.response_message(1, 'r0') + b', ' + v2.response_message(2, 'r1') + b']',
+        'barereq': lambda: b'{"method":"m","id":5}',
+        'bareres': lambda: b'{"result":1,"id":"r0"}',
+        'v1explicit': lambda: b'{"jsonrpc":"1.0","method":"m","params":[],"id":3}',
+        'bothnull': lambda: b'{"result":null,"error":null,"id":"r1"}',
+        'mixedbatch': lambda: b'[' + v1.request_message(R('a', [1]), 1) + b', ' + v2.request_message(R('m', []), 2) + b']',
+        'emptybatch': lambda: b'[]',
+        'number': lambda: b'5',
+        'badjson': lambda: b'{"method":',
+        'badutf8': lambda: b'{"method":"\xff"}',
+    }
+
+
+CONN_QUICK = ('v1req', 'v1req2', 'v1notif', 'v1res', 'v2req', 'v2named', 'v2notif', 'v2res', 'v2err',
+              'v2batch', 'barereq', 'bareres', 'v1explicit', 'badjson')
+CONN_ALL = ('v1req', 'v1req2', 'v1notif', 'v1res', 'v1err', 'v2req', 'v2named', 'v2notif', 'v2res', 'v2err',
+            'v2batch', 'v2resbatch', 'barereq', 'bareres', 'v1explicit', 'bothnull', 'mixedbatch',
+            'emptybatch', 'number', 'badjson', 'badutf8')
+CONN_SENDS = ('send', 'sendnamed', 'sendnotif', 'sendbatch', 'answer')
+
+
+def conn_histories(names, rng, n_random):
+    """every history of three received messages over `names`, then random longer ones with
+    requests sent in between (and answered: `answer` = a response, in the format of the first
+    message's originator, to the oldest request still outstanding)"""
+    for a in names:
+        for b in names:
+            for c in names:
+                yield [a, b, c]
+    for _ in range(n_random):
+        h = [rng.choice(CONN_ALL)]
+        for _ in range(rng.randint(2, 6)):
+            h.append(rng.choice(CONN_ALL) if rng.random() < 0.65 else rng.choice(CONN_SENDS))
+        yield h
+
+
+def _describe_item(mod, it):
+    if isinstance(it, (mod.Request, mod.Notification)):
+        return (type(it).__name__, it.method, E(norm(it.args)) if _is_j(it.args) else repr(type(it.args)))
+    return (type(it).__name__,)
+
+
+def _is_j(v):
+    try:
+        E(v)
+        return True
+    except Exception:     # noqa
+        return False
+
+
+def _fut_state(f):
+    if not f.done():
+        return 'pending'
+    if f.cancelled():
+        return 'cancelled'
+    e = f.exception()
+    if e is not None:
+        return ('exc', type(e).__name__, getattr(e, 'code', None))
+    r = f.result()
+    return ('res', E(norm(r)) if _is_j(norm(r)) else repr(type(r)))
+
+
+def _conn_op(mod, conn, futs, name, msgs, answer_fmt):
+    """one step on one connection -> observable outcome"""
+    try:
+        if name == 'send':
+            m, f = conn.send_request(mod.Request('q', [len(futs)]))
+            futs.append(f)
+            return ('sent', m)
+        if name == 'sendnamed':
+            m, f = conn.send_request(mod.Request('q', {'k': len(futs)}))
+            futs.append(f)
+            return ('sent', m)
+        if name == 'sendnotif':
+            return ('sent', conn.send_notification(mod.Notification('t', [1])))
+        if name == 'sendbatch':
+            m, f = conn.send_batch(mod.Batch([mod.Request('x', []), mod.Notification('y', []),
+                                              mod.Request('z', [1])]))
+            if f is not None:
+                futs.append(f)
+            return ('sent', m)
+        if name == 'answer':
+            msg = answer_fmt
+        else:
+            msg = msgs[name]()
+        got = conn.receive_message(bytes(bytearray(msg)))
+        out = []
+        for k, it in enumerate(got):
+            d = _describe_item(mod, it)
+            if isinstance(it, mod.Request):
+                # the reply this request would get: shows the reply format and the id bound to it
+                d = d + (it.send_result(k),)
+            out.append(d)
+        return ('items', out)
+    except BaseException as e:     # noqa
+        if isinstance(e, (KeyboardInterrupt, SystemExit)):
+            raise
+        if isinstance(e, mod.ProtocolError):
+            return ('pe', e.code, e.error_message,
+                    '-' if e.response_msg_id is id else cc.safe_enc(e.response_msg_id))
+        return ('exc', type(e).__name__)
+
+
+def _wire_ids(b):
+    try:
+        p = json.loads(b.decode())
+    except Exception:     # noqa
+        return []
+    ms = p if isinstance(p, list) else [p]
+    return [m['id'] for m in ms if isinstance(m, dict) and 'id' in m]
+
+
+def _norm_sent(b, drawn):
+    """a sent message with its ids replaced by the order in which this connection drew them (which
+    ids a connection draws is C01's business; two connections may share a counter)"""
+    try:
+        p = json.loads(b.decode())
+    except Exception:     # noqa
+        return b
+    for m in (p if isinstance(p, list) else [p]):
+        if isinstance(m, dict) and 'id' in m:
+            key = E(m['id']) if _is_j(m['id']) else repr(m['id'])
+            if key not in drawn:
+                drawn.append(key)
+            m['id'] = ['drawn', drawn.index(key)]
+    return E(p) if _is_j(p) else repr(p)
+
+
+class _Side:
+    def __init__(self, conn):
+        self.conn, self.futs, self.outstanding, self.drawn = conn, [], [], []
+
+
+def eval_conn_history(mod, names, loop):
+    """returns (violation | None, model line, impl classes, detected protocol)"""
+    asyncio.set_event_loop(loop)
+    P = cc.protos(mod)
+    msgs = _conn_messages(mod)
+    auto = _Side(mod.JSONRPCConnection(mod.JSONRPCAutoDetect))
+    ref = None
+    classes, toks, nrecv = [], [], 0
+    viol = None
+    q0 = None
+
+    def run(side, name, step):
+        """one step on one side; an `answer` is a response (in the format of the detected class) to
+        the oldest request this side still has outstanding"""
+        answer = None
+        if name == 'answer':
+            rid = side.outstanding.pop(0)
+            answer = (P[q0] if q0 in P else mod.JSONRPCv2).response_message(['ans', step], rid)
+        o = _conn_op(mod, side.conn, side.futs, name, msgs, answer)
+        if o[0] == 'sent':
+            if name != 'sendnotif':
+                side.outstanding += _wire_ids(o[1])
+            o = ('sent', _norm_sent(o[1], side.drawn))
+        return o, answer
+
+    for step, name in enumerate(names):
+        sending = name in CONN_SENDS
+        if sending and ref is None:
+            continue            # nothing is sent before the protocol is known
+        if name == 'answer' and not (auto.outstanding and ref.outstanding):
+            continue
+        if not sending and ref is None:
+            # the protocol detected on the first message that parses (public API)
+            try:
+                q0 = cc.proto_name(mod, mod.JSONRPCAutoDetect.detect_protocol(msgs[name]()))
+                if q0 in P:
+                    ref = _Side(mod.JSONRPCConnection(P[q0]))
+            except Exception:     # noqa: does not parse - detection stays pending
+                pass
+        oa, msg = run(auto, name, step)
+        if not sending:
+            msg = msgs[name]()
+        if msg is not None:
+            nrecv += 1
+            try:
+                toks.append(E(json.loads(msg.decode())))
+            except UnicodeDecodeError:
+                toks.append('x:unicode')
+            except ValueError:
+                toks.append('x:json')
+            if oa[0] == 'items':
+                kinds = [d[0] for d in oa[1]]
+                classes.append('R' if kinds == ['Request'] else 'N' if kinds == ['Notification'] else
+                               'V' if not kinds else '?')
+            elif oa[0] == 'pe':
+                classes.append(f'PE{oa[1]}' if oa[2] is not None else 'V')
+            else:
+                classes.append('PY' + oa[1])
+            if msg.lstrip()[:1] == b'[' and toks[-1][:2] != 'x:':
+                classes[-1] = 'B*'          # batches: the connection-level outcome is C01/C02's model
+        if ref is not None:
+            orf, _ = run(ref, name, step)
+            sa, sr = [_fut_state(f) for f in auto.futs], [_fut_state(f) for f in ref.futs]
+            if viol is None and (oa != orf or sa != sr):
+                what = 'outcome' if oa != orf else 'futures'
+                viol = ('c04:autodetect-not-settled',
+                        f'step {step} ({name}): the auto-detecting connection ({what}: {str(oa if oa != orf else sa)[:150]}) '
+                        f'differs from a connection created with the protocol detected on the first message '
+                        f'({q0}: {str(orf if oa != orf else sr)[:150]})')
+    line = f'conn auto {nrecv} ' + ' '.join(toks) if nrecv else None
+    return viol, line, classes, q0
+
+
+def evaluate_conn_histories(ctx, res, hists, scope):
+    hists = [list(h) for h in hists]
+    if not hists:
+        return
+    _init(ctx.repo)
+    mod = _mod
+    loop = asyncio.new_event_loop()
+    try:
+        outs = [eval_conn_history(mod, h, loop) for h in hists]
+    finally:
+        asyncio.set_event_loop(None)
+        loop.close()
+    lines = [o[1] for o in outs if o[1]]
+    model = model_lines(ctx, lines)
+    k = 0
+    for h, (viol, line, classes, q0) in zip(hists, outs):
+        case = {'kind': 'connhist', 'steps': h, 'scope': scope}
+        if viol:
+            res.violation(viol[0], case, viol[1])
+        res.count('connhist_first_' + str(q0))
+        res.nontrivial(('connhist', tuple(h)))
+        if line:
+            if model is not None:
+                m = model[k]
+                mcls, _, mproto = m.partition(' | ')
+                mc = mcls.split(' ') if mcls else []
+                ok = len(mc) == len(classes) and all(a == b or b == 'B*' for a, b in zip(mc, classes)) \
+                    and (q0 is None or mproto == q0 or q0 not in cc.PROTO_NAMES)
+                if not ok:
+                    res.disagreement(case, ' '.join(classes) + ' | ' + str(q0), m)
+                res.count('model_connhist')
+            k += 1
+    res['evaluations'] += len(hists)
+
+
 # ------------------------------------------------------------------------------ laws L1 / L1b
 def check_laws(ctx, res, rng, n):
     """L1: loads(dumps(v)) = v for JSON-representable v; L1b: '[' + ', '.join(parts) + ']' loads
@@ -1008,6 +1276,19 @@ def load_corpus(verif):
     return dec, rts
 
 
+def load_corpus_connhists(verif):
+    path = os.path.join(verif, 'corpus', 'C04.txt')
+    out = []
+    if os.path.exists(path):
+        for line in open(path):
+            line = line.strip()
+            if line and not line.startswith('#'):
+                d = json.loads(line)
+                if d.get('kind') == 'connhist':
+                    out.append(list(d['steps']))
+    return out
+
+
 def load_corpus_histories(verif):
     path = os.path.join(verif, 'corpus', 'C04.txt')
     out = []
@@ -1033,7 +1314,12 @@ RULE = ('decode case = (protocol class, payload); exhaustive over every subset o
         '(protocol, kind, value) for round trips; histories: an encoded item is decoded (message_to_item '
         '/ a fresh connection / detect_protocol, by every class that gives it the same meaning), the '
         'decoded objects are modified in place, other messages decoded, and equal bytes decoded again - '
-        'every decode must yield the item that was encoded')
+        'every decode must yield the item that was encoded; connection histories: every triple of '
+        'received messages over 14 (thorough: 21) message classes (1.0 / 2.0 / bare requests, '
+        'notifications, results, errors, batches, unparseable bytes) and random histories of 3-7 steps '
+        'with requests sent and answered in between, through one JSONRPCConnection(JSONRPCAutoDetect) '
+        'and through a reference connection created with the protocol detected on the first message: '
+        'all observables must agree')
 
 
 def random_payload(rng):
@@ -1063,17 +1349,17 @@ def depth_of(ctx):
 
 
 SCALE = {
-    #            laws  grid values/member  random payloads  round trips  histories
-    'quick':    (400,  QUICK_N,            4000,            3000,        600),
-    'drift':    (1000, QUICK_N,            30000,           8000,        3000),
-    'thorough': (3000, None,               60000,           40000,       12000),
+    #            laws  grid values/member  random payloads  round trips  histories  conn histories
+    'quick':    (400,  QUICK_N,            4000,            3000,        600,       1500),
+    'drift':    (1000, QUICK_N,            30000,           8000,        3000,      6000),
+    'thorough': (3000, None,               60000,           40000,       12000,     60000),
 }
 
 
 def run(ctx):
     res = Results()
     rng = ctx.rng
-    nlaws, npm, nrand, nrt, nhist = SCALE[depth_of(ctx)]
+    nlaws, npm, nrand, nrt, nhist, nconn = SCALE[depth_of(ctx)]
     # (a) corpus first
     cdec, crts = load_corpus(ctx.verif)
     evaluate_decode(ctx, res, cdec, 'corpus')
@@ -1101,6 +1387,12 @@ def run(ctx):
     hs = load_corpus_histories(ctx.verif) + [gen_history(rng) for _ in range(nhist)]
     evaluate_histories(ctx, res, hs, 'history')
     res['scopes']['histories'] = len(hs)
+    # (g) connection histories: auto-detection settles on the first message
+    names = CONN_ALL if depth_of(ctx) == 'thorough' else CONN_QUICK
+    chs = load_corpus_connhists(ctx.verif) + list(conn_histories(names, rng, nconn))
+    evaluate_conn_histories(ctx, res, chs, 'connection-history')
+    res['scopes']['connection_histories'] = {'messages': list(names), 'exhaustive_length': 3,
+                                             'histories': len(chs)}
     res['scopes']['depth'] = depth_of(ctx)
     return res.finish(RULE, exhaustive=True)
 
@@ -1115,5 +1407,7 @@ def replay(ctx, case):
         evaluate_roundtrips(ctx, res, [RT.from_case(case)], 'replay')
     elif case.get('kind') == 'history':
         evaluate_histories(ctx, res, [Hist.from_case(case)], 'replay')
+    elif case.get('kind') == 'connhist':
+        evaluate_conn_histories(ctx, res, [case['steps']], 'replay')
     res.sample(case)
     return res.finish('replay of one recorded case')
